@@ -167,6 +167,7 @@ func checkC01(w *World, r *Report) {
 	r.Explain = "Liveness skeleton of the channel program, decided by communication-shape rules over the SSA-derived table of all channel/WaitGroup/go operations (classes by origin tracing) plus path enumeration: every blocking operation falls under a schema that cannot block forever once its peers follow theirs; wait groups are paired; terminal state implies the cancel chain (trigger cancels or spawns the early refresh; terminal frames carry and advance the shutdown counter; flush cancels at the cancelling frame); one frame per render request; iterators are closed by their producer; heap requests are FIFO from one goroutine and never issued while iterating; new bars are announced to the width matrices; width exchanges are balanced (one per Decor, Decor always called); heap protocol table agrees; replies are paired; created bars are pushed or parked. The two recorded C17 findings (lost successor) are known findings of this property too. Decides necessary conditions: absence of deadlock as such (a global property of all schedules) is not decided, nor are user callbacks that block."
 	r.Assume = append(r.Assume, "fair scheduling of goroutines", "user fillers/decorators/writers return", "runtime channel semantics")
 	livenessAll(w, r, "C01")
+	ruleOptionTable(w, r, "C01", map[string][3]string{"WithWaitGroup": {tPState, "uwg", "param"}})
 	ruleTriggerCancels(w, r, "C01")
 	ruleRenderTerminal(w, r, "C01")
 	fi := w.analyseFlush()
@@ -473,6 +474,7 @@ func checkC03(w *World, r *Report) {
 	r.Assume = append(r.Assume, "C01 (render cycles keep coming until bars are cancelled)", "the cwriter buffer is flushed by Flush (bytes.Buffer.WriteTo)")
 	checkWriterConfinement(w, r, "C03.WRITER")
 	ruleWaitChain(w, r, "C03")
+	ruleOptionTable(w, r, "C03", map[string][3]string{"WithWaitGroup": {tPState, "uwg", "param"}, "WithOutput": {tPState, "output", "paramOrDefault"}})
 	checkWaitGroups(w, r, "C03")
 	ruleRenderTerminal(w, r, "C03")
 	fi := w.analyseFlush()
@@ -657,6 +659,7 @@ func checkC13(w *World, r *Report) {
 	ruleDelayWriter(w, r, "C13")
 	ruleCursorUp(w, r, "C13")
 	ruleFlushReturnsErrors(w, r, "C13")
+	ruleOptionTable(w, r, "C13", map[string][3]string{"WithOutput": {tPState, "output", "paramOrDefault"}, "WithRenderDelay": {tPState, "delayRC", "param"}})
 	ruleStateAgrees(w, r, "C13")
 	// rows are written only inside flush
 	fl := w.flushFn()
@@ -958,6 +961,7 @@ func checkC14(w *World, r *Report) {
 	checkEndOnExit(w, r, "C14")
 	ruleFinalRender(w, r, "C14")
 	ruleWaitChain(w, r, "C14")
+	ruleOptionTable(w, r, "C14", map[string][3]string{"WithWaitGroup": {tPState, "uwg", "param"}, "WithShutdownNotifier": {tPState, "shutdownNotifier", "param"}})
 	checkWaitGroups(w, r, "C14")
 	ruleEndArm(w, r, "C14")
 	ruleUnwrap(w, r, "C14")
@@ -1313,6 +1317,7 @@ func checkC15(w *World, r *Report) {
 	ruleErrorPropagation(w, r, "C15")
 	ruleFlushWrites(w, r, "C15")
 	ruleFlushReturnsErrors(w, r, "C15")
+	ruleOptionTable(w, r, "C15", map[string][3]string{"WithDebugOutput": {tPState, "debugOut", "paramOrDefault"}})
 	checkProducerClose(w, r, "C15")
 	checkOneFrame(w, r, "C15")
 	fi := w.analyseFlush()
